@@ -74,6 +74,7 @@ struct Thr {
   bool parked = false;
   uint64_t park_progress = 0;
   uint64_t yield_progress = 0;
+  int64_t yield_deadline = 0;   // rt::yield_until: the clock may advance to this time while the thread is yield-blocked (0 = none)
   // condvar / sleep
   bool signalled = false, timed = false, timed_out = false;
   int64_t deadline = 0;
@@ -224,6 +225,10 @@ bool clock_can_advance(ExecState& ex, int64_t* to) {
     if (t->finished) continue;
     bool timedwait = (t->kind == K_CONDWAIT && t->timed && !t->signalled) || t->kind == K_SLEEP;
     if (timedwait && t->deadline > ex.vnow) { if (!any || t->deadline < best) best = t->deadline; any = true; }
+    // a thread blocked in rt::yield_until (kernel-side timed wait, e.g. epoll_wait with an armed timerfd) that
+    // nobody has woken yet: an advance of the clock counts as progress, so it re-polls afterwards
+    bool ywait = t->kind == K_YIELD && t->yield_deadline > ex.vnow && t->yield_progress == ex.progress;
+    if (ywait) { if (!any || t->yield_deadline < best) best = t->yield_deadline; any = true; }
   }
   if (any && to) *to = best;
   return any;
@@ -384,6 +389,11 @@ void fail(const char* fmt, ...) {
 }
 
 int64_t vnow_ns() { return g_ex ? g_ex->vnow : 0; }
+void yield_until(int64_t deadline_ns) {
+  if (!managed()) return;
+  Thr* me = tl_me; me->kind = K_YIELD; me->yield_deadline = deadline_ns; me->yield_progress = g_ex->progress; reschedule(me);
+  me->yield_deadline = 0;
+}
 void set_auto_clock(bool on) { if (g_ex) g_ex->auto_clock = on; }
 
 Stats explore(const std::function<void()>& body, const Options& opt, const Sink& sink) {
@@ -621,7 +631,7 @@ int pthread_detach(pthread_t pt) {
 
 int sched_yield(void) {
   if (!managed()) return REAL(sched_yield)();
-  Thr* me = tl_me; me->kind = K_YIELD; me->yield_progress = g_ex->progress; reschedule(me);
+  Thr* me = tl_me; me->kind = K_YIELD; me->yield_deadline = 0; me->yield_progress = g_ex->progress; reschedule(me);
   return 0;
 }
 
